@@ -136,7 +136,7 @@ func genRecord(r *sx.Rng, typ auparse.AuditMessageType, seq uint32, sec int64, p
 		sc := sx.Pick(r, []int{59, 2, 257, 42, 43, 44, 45, 49, 41, 1, 87, 90, 165, 288, 999})
 		body = fmt.Sprintf("arch=c000003e syscall=%d success=%s exit=%d a0=1 a1=2 items=%d ppid=%d pid=%d auid=%s uid=%s gid=0 euid=0 suid=0 fsuid=0 egid=0 sgid=0 fsgid=0 tty=pts0 ses=%s comm=\"cmd\" exe=\"/usr/bin/cmd\" subj=u:r:t:s0:c1 key=%s%s",
 			sc, sx.Pick(r, []string{"yes", "no"}), sx.Pick(r, []int{0, -13, 3}), r.Intn(3), r.Intn(999), r.Intn(9999), sx.Pick(r, []string{"1000", "4294967295"}), sx.Pick(r, []string{"0", "1000"}), sx.Pick(r, []string{"3", "4294967295"}),
-			sx.Pick(r, []string{"(null)", "\"k1\"", "\"a=b\""}), extra())
+			sx.Pick(r, []string{"(null)", "\"k1\"", "\"a=b\"", "6B31016B32", "616C706861010162657461", "016B", "6B0101", "6101016201016301"}), extra()) // several keys, hex with the 0x01 separator, empty ones among them
 	case auparse.AUDIT_PATH:
 		body = fmt.Sprintf("item=%d name=\"/p/%s\" inode=%d dev=fd:01 mode=%s ouid=%d ogid=%d rdev=00:0%d obj=u:object_r:t:s0 nametype=%s%s", r.Intn(3), val(r)[:1], r.Intn(99999),
 			sx.Pick(r, []string{"0100644", "040755", "0120777", "020620", "060660", "010600", "0140755", "0104755", "bogus"}), r.Intn(2000), r.Intn(2000), r.Intn(9), sx.Pick(r, []string{"NORMAL", "PARENT", "CREATE", "DELETE", "UNKNOWN"}), extra())
